@@ -261,6 +261,20 @@ def main(argv):
                             continue
                         if got != want:
                             fail("include#transparent", dict(main=main, include=inc, reader=kind), dict(printed=got))
+            # histories: the same include name resolved under different include paths in one process
+            with tempfile.TemporaryDirectory() as da, tempfile.TemporaryDirectory() as db, tempfile.TemporaryDirectory() as dc:
+                open(os.path.join(da, "h.inc"), "w").write("  i = 1\n")
+                open(os.path.join(db, "h.inc"), "w").write("  i = 2\n")
+                msrc = "program p\n  integer :: i\n  include 'h.inc'\nend program p\n"
+                for dirs, expect in (([da, db], "i = 1"), ([db, da], "i = 2"), ([da, db], "i = 1"), ([dc], "INCLUDE 'h.inc'"), ([dc, db], "i = 2")):
+                    cases += 1
+                    try:
+                        got = str(ParserFactory().create(std="f2003")(FortranStringReader(msrc, include_dirs=dirs)))
+                    except BaseException as e:  # noqa
+                        got = "%s: %s" % (type(e).__name__, e)
+                    if expect not in got or ("INCLUDE" in got) != ("INCLUDE" in expect):
+                        fail("include#first_matching_directory_wins_per_parse", dict(main=msrc, include_dirs=["A" if x == da else "B" if x == db else "C" for x in dirs]),
+                             dict(printed=got, expected_line=expect))
             src = "program p\n  integer :: i\n  include 'nowhere.inc'\n  i = 1\nend program p\n"
             cases += 1
             t = parse(src)
